@@ -514,5 +514,7 @@ def run(ctx: Ctx) -> None:
     _r122(ctx)
     _r123(ctx)
     _r123b(ctx)
+    from .c06 import class_mutable_rule
+    class_mutable_rule(ctx, 'R12.3', ['DirectSimulation', 'SplittingSimulation', 'BatchSimulation'])
     _r124(ctx)
     _r125(ctx)
